@@ -12,6 +12,16 @@ BASE_NOTE = (
 
 # property -> (category, text, technique, design_ref, extra note)
 CLAIMS = {
+    "C18": (
+        "other",
+        "Contracts on the real inheritance kernels: _store_blocks (for stacks of 0..2 more-derived definitions: the new definition is appended below them, becomes the parent of the previous one, parent links above are untouched, only an un-overridden required block is effectively required) and "
+        "BlockNode.render_to_output (for stacks of 0..3 definitions: renders the most-derived definition -- stack[0] -- in a copy that shares the block stacks so nested blocks resolve again, hands it a block drop whose super is the next definition up, "
+        "RequiredBlockError iff the effective definition is required, own body when rendered stand-alone). Structural obligations: ExtendsNode ends with StopRender and render_with_context breaks on it, circular extends / too many extends / duplicate blocks / mismatched endblock raise TemplateInheritanceError, every chain step grows `seen`. "
+        "A bounded check renders every chain of length 1..3 (thorough 4) over two block names against a reference resolver written from the statement.",
+        "contract-based deductive verification (heap-shape contracts on the block-stack kernels) + structural obligations + bounded contract check",
+        "DESIGN.md section 4 C18",
+        "One known finding (stand-alone template with duplicate block names is not rejected) keeps the level at 'other'.",
+    ),
     "C17": (
         "proof",
         "Frame (write-set) obligations over the real ASTs, enumerated mechanically on every run: none of the render / evaluate / children / scope methods of any Node or Expression subclass stores into or mutates its own object (150+ methods); "
